@@ -117,6 +117,8 @@ pub open spec fn line_add(line: int, inc: int) -> int {
 ///   new address  = address + min_inst_len * ((op_index + operation advance) / max_ops)
 ///   new op_index = (op_index + operation advance) % max_ops
 /// gimli clauses: skipped while in tombstone mode; a new address above the address size is an error.
+/// (opaque: callers of `apply_operation_advance` reason with the term, only its own proof looks inside)
+#[verifier::opaque]
 pub open spec fn line_advance(h: LineHdr, r: LineRegs, adv: int) -> LineExec {
     if r.tombstone {
         LineExec { err: false, regs: r, emit: false }
@@ -139,14 +141,14 @@ pub open spec fn line_exec(h: LineHdr, r: LineRegs, op: LineOp) -> LineExec {
         },
         // 6.2.5.2
         LineOp::Copy => LineExec { err: false, regs: r, emit: true },
-        LineOp::AdvancePc(u) => line_advance(h, r, u),
+        LineOp::AdvancePc(u) => LineExec { emit: false, ..line_advance(h, r, u) },
         LineOp::AdvanceLine(s) => LineExec { err: false, regs: LineRegs { line: line_add(r.line, s), ..r }, emit: false },
         LineOp::SetFile(u) => LineExec { err: false, regs: LineRegs { file: u, ..r }, emit: false },
         LineOp::SetColumn(u) => LineExec { err: false, regs: LineRegs { column: u, ..r }, emit: false },
         LineOp::NegateStmt => LineExec { err: false, regs: LineRegs { is_stmt: !r.is_stmt, ..r }, emit: false },
         LineOp::SetBasicBlock => LineExec { err: false, regs: LineRegs { basic_block: true, ..r }, emit: false },
         // "advances the address and op_index registers by the increments corresponding to special opcode 255"
-        LineOp::ConstAddPc => line_advance(h, r, (255 - h.opcode_base) / h.line_range),
+        LineOp::ConstAddPc => LineExec { emit: false, ..line_advance(h, r, (255 - h.opcode_base) / h.line_range) },
         // "adds it to the address register and sets op_index to 0 ... does not multiply by minimum_instruction_length"
         LineOp::FixedAdvancePc(x) => {
             if r.tombstone {
@@ -253,6 +255,7 @@ pub proof fn lemma_line_exec_monotone(h: LineHdr, r: LineRegs, op: LineOp)
     requires valid_line_hdr(h), line_regs_wf(h, r), line_op_wf(h, op), r.address <= addr_max(h), !line_exec(h, r, op).err
     ensures r.address <= line_exec(h, r, op).regs.address <= addr_max(h), 0 <= line_exec(h, r, op).regs.op_index < h.max_ops
 {
+    reveal(line_advance);
     match op {
         LineOp::Special(o) => {
             lemma_line_special(h, o);
